@@ -10,6 +10,7 @@ import (
 	"sort"
 	"strconv"
 	"strings"
+	"sync"
 	"testing"
 	"testing/synctest"
 	"time"
@@ -79,18 +80,59 @@ type Goroutine struct {
 	Raw       string
 }
 
-// DumpBubble returns the goroutines of the calling goroutine's bubble other than the caller.
-func DumpBubble() []Goroutine {
-	buf := make([]byte, 1<<20)
-	for {
-		n := runtime.Stack(buf, true)
-		if n < len(buf) {
-			buf = buf[:n]
+var (
+	dumpMu  sync.Mutex
+	dumpBuf []byte
+)
+
+// BusyTickerRoles returns the roles of gqlgen's ticker goroutines that are not waiting in their
+// own select statement: parked by the scheduler, or blocked below it where the scheduler cannot
+// see them (a keep-alive write waiting for gorilla's write mutex while the read loop answers a
+// close frame). While one is away from its select the clock must not pass its next tick: the
+// tick would queue in the ticker's channel and later tie with the goroutine's stop signal.
+func BusyTickerRoles() []string {
+	var out []string
+	for _, g := range DumpBubble() {
+		role := ""
+		for _, f := range g.Frames {
+			if m := roleRe.FindStringSubmatch(f + "("); m != nil {
+				role = m[1] + m[2]
+			}
+		}
+		if !IsTickerRole(role) {
+			continue
+		}
+		for _, f := range g.Frames {
+			if strings.HasPrefix(f, "runtime.") || strings.HasPrefix(f, "internal/") || strings.HasPrefix(f, "time.") {
+				continue
+			}
+			if m := roleRe.FindStringSubmatch(f + "("); m == nil || m[1]+m[2] != role {
+				out = append(out, role)
+			}
 			break
 		}
-		buf = make([]byte, 2*len(buf))
 	}
-	blocks := strings.Split(strings.TrimSpace(string(buf)), "\n\n")
+	sort.Strings(out)
+	return out
+}
+
+// DumpBubble returns the goroutines of the calling goroutine's bubble other than the caller.
+func DumpBubble() []Goroutine {
+	dumpMu.Lock()
+	if dumpBuf == nil {
+		dumpBuf = make([]byte, 1<<20)
+	}
+	var text string
+	for {
+		n := runtime.Stack(dumpBuf, true)
+		if n < len(dumpBuf) {
+			text = string(dumpBuf[:n])
+			break
+		}
+		dumpBuf = make([]byte, 2*len(dumpBuf))
+	}
+	dumpMu.Unlock()
+	blocks := strings.Split(strings.TrimSpace(text), "\n\n")
 	if len(blocks) == 0 {
 		return nil
 	}
